@@ -20,8 +20,8 @@ Dicts == {<<>>} \cup {<<[k |-> k, v |-> x]>> : k \in {PStr("a"), PInt(1)}, x \in
          \cup {<<[k |-> PStr("a"), v |-> x], [k |-> PInt(1), v |-> y]>> : x \in {PInt(1), PStr("a")}, y \in {PInt(1), PNone, ObjB}}
 Nested == {PLst(<<PLst(<<PInt(1)>>)>>), PLst(<<PLst(<<PStr("a")>>), PLst(<<>>)>>), PLst(<<PTup(<<PInt(1), PStr("a")>>)>>),
            PDct(<<[k |-> PStr("a"), v |-> PLst(<<PInt(1)>>)]>>), PDct(<<[k |-> PStr("a"), v |-> PLst(<<PNone>>)]>>),
-           PTup(<<PLst(<<PInt(1)>>), PNone>>), PLst(<<PSet({PInt(1)})>>), PLst(<<PDct(<<[k |-> PInt(1), v |-> PInt(1)]>>)>>)}
-Pool == Scalars \cup {PLst(s) : s \in Seqs2} \cup {PTup(s) : s \in Seqs2} \cup {PSet(s) : s \in Sets2} \cup {PDct(d) : d \in Dicts} \cup Nested
+           PTup(<<PLst(<<PInt(1)>>), PNone>>), PLst(<<PSet(<<PInt(1)>>)>>), PLst(<<PDct(<<[k |-> PInt(1), v |-> PInt(1)]>>)>>)}
+Pool == Scalars \cup {PLst(s) : s \in Seqs2} \cup {PTup(s) : s \in Seqs2} \cup {PSet(SetToSeq(s)) : s \in Sets2} \cup {PDct(d) : d \in Dicts} \cup Nested
 
 Bases  == {TBase(n) : n \in {"int", "float", "str", "bool", "bytes", "none"}}
 Lits   == {TLit(<<PInt(1), PStr("a")>>), TLit(<<PBool(TRUE)>>), TLit(<<PNone, PInt(0)>>)}
